@@ -233,9 +233,21 @@ def varying_case(rec, seedt, tier):
     h = (order + 1) // 2
     N = int(rng.choice([3, 10, 50, 200, 5000, 20000, 40000] + ([70000] if tier == "thorough" else [])))
     kind = str(rng.choice(["constant", "ramp", "small", "large", "intvec", "int-ends-ramp",
-                           "periodic", "first-eq-last", "const-but-one", "sorted", "mostly-int"]))
+                           "periodic", "first-eq-last", "const-but-one", "sorted", "mostly-int",
+                           "all-interior-ramp", "all-interior-random"]))
     if kind == "constant":
         sh = np.full(N, float(rng.uniform(-4, 4)))
+    elif kind in ("all-interior-ramp", "all-interior-random") and N > 4 * h + 12:
+        # EVERY stencil inside the record: shifts point inwards at both ends (a time-compression
+        # ramp, or random shifts confined to what the position allows)
+        n_ = np.arange(N)
+        lo_s = (h - 1) - n_ + 0.01                 # n + floor(s) - (h-1) >= 0
+        hi_s = (N - 1 - h) - n_ - 0.01             # n + floor(s) + h <= N-1
+        if kind == "all-interior-ramp":
+            sh = np.linspace(h + float(rng.uniform(0, 4)), -(h + float(rng.uniform(0, 4))), N)
+        else:
+            sh = rng.uniform(-5, 5, size=N)
+        sh = np.minimum(np.maximum(sh, lo_s), hi_s)
     elif kind == "int-ends-ramp":
         # shift vectors that look special from a summary (their ends, their first elements) only
         sh = np.linspace(float(rng.integers(-3, 1)), float(rng.integers(1, 4)), N)
